@@ -638,13 +638,48 @@ pub fn c04(p: &Params) -> Outcome {
         jobs.push((4095, l));
         jobs.push((4094, l));
     }
+    // frames whose checksum equals the CRC of a proper prefix (the register returns to an earlier value): at the
+    // 256-byte marks and at arbitrary offsets -- number 4093 marks them
+    for l in [40usize, 260, 300, 515, 600, 770, 900, 1023] {
+        jobs.push((4093, l));
+        jobs.push((4093, l));
+    }
     let njobs = jobs.len();
     let mut total = par::run_queue(p.workers, njobs, move |i, ctx| {
         let (n, l) = jobs[i];
         let mut rng = Rng::derive(seed, "C04.frame", i as u64);
         let reps = if thorough && n == 0 { 3 } else { 1 };
         for rep in 0..reps {
-            let (f, label) = if n >= 4094 {
+            let (f, label) = if n == 4093 {
+                let mut payload = rng.bytes(l);
+                // prefix length counted from the start of the frame; the last three payload bytes lie behind it
+                let k = if rep == 0 && i % 2 == 0 && l >= 256 { 256 * rng.range(1, (l / 256) as i64) as usize } else { rng.range(3, l as i64 - 3) as usize };
+                let mut fr = vec![0xD3u8, ((l >> 8) & 3) as u8, l as u8];
+                fr.extend_from_slice(&payload);
+                let target = crc::crc24q(&fr[..k]);
+                let r = crc::crc24q(&fr[..l]); // everything before the last three payload bytes
+                // feeding 24 bits X turns the register r into ((r ^ X) * x^24) mod P: undo 24 shift steps on the target
+                let mut y = target;
+                for _ in 0..24 {
+                    y = if y & 1 == 1 { ((y ^ 0x864CFB) >> 1) | 0x80_0000 } else { y >> 1 };
+                }
+                let x = r ^ y;
+                payload[l - 3] = (x >> 16) as u8;
+                payload[l - 2] = (x >> 8) as u8;
+                payload[l - 1] = x as u8;
+                let f = crc::frame(&payload);
+                let n_ = f.len();
+                let trailer = ((f[n_ - 3] as u32) << 16) | ((f[n_ - 2] as u32) << 8) | f[n_ - 1] as u32;
+                if trailer != target {
+                    ctx.count("prefix_crc_construction_failed");
+                    continue;
+                }
+                ctx.count("frames_whose_checksum_equals_the_crc_of_a_prefix");
+                if k % 256 == 0 {
+                    ctx.count("frames_whose_checksum_equals_the_crc_of_a_256_byte_multiple_prefix");
+                }
+                (f, "checksum_equals_prefix_crc".to_string())
+            } else if n >= 4094 {
                 let mut payload = rng.bytes(l);
                 let j = if n == 4095 { l - 3 } else { rng.usize_below(l - 3 + 1) };
                 let mut pre = vec![0xD3u8, ((l >> 8) & 3) as u8, l as u8];
@@ -762,7 +797,7 @@ pub fn c04(p: &Params) -> Outcome {
     }
     Outcome {
         ctx: total,
-        rule: "fault injection on valid frames (synthetic payload lengths and library-generated frames of message types): single bits, bit pairs, odd-weight patterns, bursts 2..=24, the damaged frame after an intact copy, runs of two and three damaged copies in one buffer (all ordered pairs of checksum-bit errors), every one of the 2^24 checksum values of a few short frames (zero checksum, register zero at aligned offsets, empty payload); evaluations = damaged frames presented; every damaged frame is non-trivial; distinct by hash of the damaged frame".into(),
+        rule: "fault injection on valid frames (synthetic payload lengths and library-generated frames of message types): single bits, bit pairs, odd-weight patterns, bursts 2..=24, the damaged frame after an intact copy, runs of two and three damaged copies in one buffer (all ordered pairs of checksum-bit errors), every one of the 2^24 checksum values of a few short frames (zero checksum, register zero at aligned offsets, empty payload), frames whose checksum equals the CRC of a proper prefix (256-byte marks and arbitrary offsets); evaluations = damaged frames presented; every damaged frame is non-trivial; distinct by hash of the damaged frame".into(),
         exhaustive: false,
         extra: json!({}),
     }
